@@ -214,6 +214,56 @@ func genC20(r *Run) {
 			}
 		}
 		evals += exerciseC20(r, subject{fmt.Sprintf("Labels %q", names), reflect.ValueOf(l), l.ToBytes, func() string { return fmt.Sprint(l.Labels) }}, maxSeq)
+		// sets holding empty (root) names between others, repeated names, decoded and constructed;
+		// alone, in a DHCPv6 domain list / FQDN / NTP option, and as a DHCPv4 domain search value
+		var odd []string
+		var oddW []byte
+		for k := 1 + r.Rng.Intn(5); k > 0; k-- {
+			switch r.Rng.Intn(3) {
+			case 0:
+				odd = append(odd, "")
+				oddW = append(oddW, 0)
+			case 1:
+				if len(odd) > 0 && odd[len(odd)-1] != "" {
+					nm := odd[len(odd)-1]
+					odd = append(odd, nm)
+					oddW = append(oddW, byte(len(nm)))
+					oddW = append(append(oddW, nm...), 0)
+					break
+				}
+				fallthrough
+			default:
+				nm := string([]byte{byte('a' + r.Rng.Intn(26)), byte('a' + r.Rng.Intn(26))})
+				odd = append(odd, nm)
+				oddW = append(append(append(oddW, 2), nm...), 0)
+			}
+		}
+		lo := &rfc1035label.Labels{Labels: append([]string{}, odd...)}
+		if i%2 == 1 {
+			if dl, err := rfc1035label.FromBytes(oddW); err == nil {
+				lo = dl
+			}
+		}
+		evals += exerciseC20(r, subject{fmt.Sprintf("Labels %q", odd), reflect.ValueOf(lo), lo.ToBytes, func() string { return fmt.Sprint(lo.Labels) }}, maxSeq)
+		m6, _ := dhcpv6.NewMessage()
+		m6.TransactionID = dhcpv6.TransactionID{1, 2, 3}
+		lc := func() *rfc1035label.Labels { return &rfc1035label.Labels{Labels: append([]string{}, odd...)} }
+		m6.AddOption(dhcpv6.OptDomainSearchList(lc()))
+		m6.AddOption(&dhcpv6.OptFQDN{Flags: 1, DomainName: lc()})
+		m6.AddOption(&dhcpv6.OptNTPServer{Suboptions: []dhcpv6.Option{&dhcpv6.NTPSuboptionSrvFQDN{Labels: *lc()}}})
+		var s6 dhcpv6.DHCPv6 = m6
+		if i%2 == 1 {
+			if d, err := dhcpv6.FromBytes(m6.ToBytes()); err == nil {
+				s6 = d
+			}
+		}
+		evals += exerciseC20(r, subject{fmt.Sprintf("DHCPv6 with label sets %q", odd), reflect.ValueOf(s6), s6.ToBytes, func() string { return dumpLine(dumpMsg(s6)) }}, maxSeq)
+		walkV6(s6, func(o dhcpv6.Option) {
+			evals += exerciseC20(r, subject{fmt.Sprintf("dhcpv6 option %d with label sets %q", o.Code(), odd), reflect.ValueOf(o), func() []byte { return safeToBytes(o) }, func() string { return dumpLine(dumpOpt(o)) }}, 2)
+		})
+		o4 := dhcpv4.OptDomainSearch(lc())
+		evals += exerciseC20(r, subject{fmt.Sprintf("dhcpv4 domain search %q", odd), reflect.ValueOf(o4.Value), o4.Value.ToBytes, nil}, maxSeq)
+		evals += exerciseC20(r, subject{fmt.Sprintf("dhcpv4 Option{domain search %q}", odd), reflect.ValueOf(o4), o4.Value.ToBytes, nil}, maxSeq)
 		d, _ := r.genDUID()
 		evals += exerciseC20(r, subject{"DUID", reflect.ValueOf(d), d.ToBytes, nil}, maxSeq)
 	}
